@@ -143,7 +143,9 @@ func c16(r *core.Run) {
 	}
 	enterFns := roleSet(func(f *ssa.Function) bool { return f.Parent() == nil && hasCall(f, onWG(isWGAdd), true) })
 	doneFns := roleSet(func(f *ssa.Function) bool { return f.Parent() == nil && hasCall(f, onWG(isWGDone), true) })
-	execFns := roleSet(func(f *ssa.Function) bool { return hasCall(f, isExecute, false) && f.Signature.Recv() != nil && strings.Contains(f.Signature.Recv().Type().String(), "PeriodicalExecutor") })
+	execFns := roleSet(func(f *ssa.Function) bool {
+		return hasCall(f, isExecute, false) && f.Signature.Recv() != nil && strings.Contains(f.Signature.Recv().Type().String(), "PeriodicalExecutor")
+	})
 	addFns := roleSet(func(f *ssa.Function) bool { return hasCall(f, isAddTask, false) })
 	callTo := func(set map[*ssa.Function]bool) func(ssa.Instruction) bool {
 		return func(in ssa.Instruction) bool {
@@ -625,7 +627,10 @@ func c16(r *core.Run) {
 		if !o.Need(par != nil, "the function that starts the flusher") {
 			return
 		}
-		for _, in := range core.Instrs(par, func(in ssa.Instruction) bool { mc, ok := in.(*ssa.MakeClosure); return ok && mc.Fn == ssa.Value(flusher) }) {
+		for _, in := range core.Instrs(par, func(in ssa.Instruction) bool {
+			mc, ok := in.(*ssa.MakeClosure)
+			return ok && mc.Fn == ssa.Value(flusher)
+		}) {
 			for _, ref := range *in.(*ssa.MakeClosure).Referrers() {
 				switch x := ref.(type) {
 				case *ssa.DebugRef, *ssa.Go:
@@ -861,7 +866,10 @@ func c16(r *core.Run) {
 				}
 				// only the task list itself (slice-typed state) has to be handed out
 				isSlice := false
-				for _, in := range core.Instrs(ci.add, func(in ssa.Instruction) bool { fa, ok := in.(*ssa.FieldAddr); return ok && core.FieldAddrName(fa) == fld }) {
+				for _, in := range core.Instrs(ci.add, func(in ssa.Instruction) bool {
+					fa, ok := in.(*ssa.FieldAddr)
+					return ok && core.FieldAddrName(fa) == fld
+				}) {
 					if pt, ok := in.(*ssa.FieldAddr).Type().Underlying().(*types.Pointer); ok {
 						_, isSlice = pt.Elem().Underlying().(*types.Slice)
 					}
@@ -893,6 +901,46 @@ func c16(r *core.Run) {
 			}
 		}
 	})
+
+	r.Check("D5/K9/wrappers-delegate", "the bulk and chunk executors' Add/Flush/Wait delegate to the same-named operation of their periodical executor (Wait that only flushes returns while a handed-over batch is still executing)", func(o *core.O) {
+		n := 0
+		for _, typ := range []string{"BulkExecutor", "ChunkExecutor"} {
+			for _, name := range []string{"Add", "Flush", "Wait"} {
+				f := p.Func("lib/executors", typ, name)
+				if !o.Need(f != nil, "executors."+typ+"."+name) {
+					return
+				}
+				r.Fn(core.FuncName(f))
+				var calls []ssa.CallInstruction
+				for _, c := range core.Calls(f, func(in ssa.Instruction) bool {
+					c := core.AsCall(in)
+					return c != nil && strings.HasPrefix(core.Short(core.CalleeName(c)), "(*lib/executors.PeriodicalExecutor).")
+				}) {
+					calls = append(calls, c)
+				}
+				n++
+				if len(calls) != 1 {
+					o.Fail(p.Pos(f.Pos()), "%s calls %d operations of its periodical executor, expected exactly one", core.FuncName(f), len(calls))
+					continue
+				}
+				c := calls[0]
+				if got := c.Common().StaticCallee().Name(); got != name {
+					o.Fail(p.InstrPos(c), "%s delegates to PeriodicalExecutor.%s instead of %s", core.FuncName(f), got, name)
+				}
+				if _, isGo := c.(*ssa.Go); isGo {
+					o.Fail(p.InstrPos(c), "%s delegates asynchronously", core.FuncName(f))
+				}
+				if w := core.MustPass(core.Entry(f), core.Is(c.(ssa.Instruction)), core.IsReturn); w != nil {
+					o.Fail(p.InstrPos(w), "%s can return without delegating", core.FuncName(f))
+				}
+				if !strings.HasSuffix(core.Describe(core.Args(c)[0]), ".executor") {
+					o.Fail(p.InstrPos(c), "%s delegates to %s, not to its own executor", core.FuncName(f), core.Describe(core.Args(c)[0]))
+				}
+			}
+		}
+		o.Site(n)
+	})
+
 }
 
 // isFreshStore: the store initialises a field of an object allocated in the same function (constructor).
@@ -1032,4 +1080,5 @@ func balancedModuloDefers(la *core.LockAnalysis, f *ssa.Function) bool {
 		}
 	}
 	return true
+
 }
